@@ -43,7 +43,9 @@ int KSI_TcpAsyncClient_setService(KSI_AsyncClient *c, const char *host, unsigned
 #include "impl/net_async_impl.h"
 #include "impl/net_sock_impl.h"
 
+#if !defined(GUARDTIME_LIBKSI_VERIF) || !defined(KSI_TLV_MAX_SIZE)
 #define KSI_TLV_MAX_SIZE (0xffff + 4)
+#endif
 
 typedef struct TcpClientCtx_st {
 	KSI_CTX *ctx;
